@@ -250,6 +250,9 @@ def check_dxdtf_values(ctx, f, xU, phys, chem, U, case, key, what):
     except Exception as ex:  # noqa
         ctx.violation(key + ":raises", "%s raised %s" % (what, type(ex).__name__), case, impl=type(ex).__name__)
         return None
+    if not all(abs(v) < 1e250 for v in out + list(xU)):
+        ctx.count("dxdtf_overflow_skipped")
+        return None
     for s in range(ns):
         exp, mag = (Fraction(0), Fraction(0)) if chem[s] else orc[s]
         if not close(out[s], exp / fr, mag / fr, rel=TOL):
@@ -303,11 +306,13 @@ def run_dxdtf(ctx, jobs):
                     ctx.disagree("dxdtf", case, out, m["ok"])
         if not (out and out[0] == "error"):
             # ---- the returned closure is a function of (t, x): call it again, on other states, and integrate two steps
-            x2 = [v * 1.5 + 1.0 for v in jb["xU"]]
+            mx = max([abs(v) for v in jb["xU"]] + [0.0])
+            x2 = [v * 1.5 + 0.25 * mx for v in jb["xU"]]
             o2 = check_dxdtf_values(ctx, f, x2, phys, chem, U, dict(case, sequence="second call"), "dxdtf-repeat", "second call of the function returned by make_dxdtf")
             ctx.count("dxdtf_repeated_calls")
             if o2 is not None:
-                h = 1.0 / 128
+                mo = max([abs(v) for v in o2] + [0.0])
+                h = (0.05 * max(abs(v) for v in x2) / mo) if (mo > 0 and mo < 1e300) else 0.0     # a step that moves amounts by <= 5 %
                 x3 = [a + h * b for a, b in zip(x2, o2)]
                 o3 = check_dxdtf_values(ctx, f, x3, phys, chem, U, dict(case, sequence="third call (after an explicit step)"), "dxdtf-repeat",
                                         "third call of the function returned by make_dxdtf")
@@ -465,8 +470,54 @@ def run_euler(ctx, jobs):
                 ctx.disagree("euler_step", case, x1e, m["ok"]["x"])
 
 
-def make_job(ctx, rng, kind=None, size1=False, allow_parallel=False, max_cells=8):
-    desc, phys, info = L.gen_system(rng, kind=kind, max_cells=1 if size1 else max_cells, chem_p=0.2, allow_parallel=allow_parallel)
+def _k_differs(phys):
+    return any(len(set(r["kf"])) > 1 or len(set(r["kr"])) > 1 for r in phys["reacs"])
+
+
+# directed configurations (rejection sampling over the random generator): each names a class of inputs on which a particular
+# kind of slip shows, so that every quick run contains them whatever the seed
+DIRECTED = {
+    "graph-hetero-edge": ("graph", False, lambda p: any(
+        p["vol"][a] != p["vol"][b] and any(p["D"][s][p["env"][a]] != p["D"][s][p["env"][b]] and p["D"][s][p["env"][a]] != 0 and p["D"][s][p["env"][b]] != 0
+                                          for s in range(p["ns"])) for (a, b, _, _) in p["space"]["edges"])),
+    "grid-y-periodic-z-reflecting": ("grid", False, lambda p: p["space"]["d"] >= 2 and p["space"]["py"] and not p["space"]["pz"] and any(any(v != 0 for v in row) for row in p["D"])),
+    "grid-z-periodic-y-reflecting": ("grid", False, lambda p: p["space"]["d"] >= 2 and p["space"]["pz"] and not p["space"]["py"] and any(any(v != 0 for v in row) for row in p["D"])),
+    "grid-x-periodic-only": ("grid", False, lambda p: p["space"]["w"] >= 2 and p["space"]["px"] and not p["space"]["py"] and any(any(v != 0 for v in row) for row in p["D"])),
+    "grid-several-environments": ("grid", False, lambda p: len(set(p["env"])) > 1 and _k_differs(p)),
+    "graph-several-environments": ("graph", False, lambda p: len(set(p["env"])) > 1 and _k_differs(p)),
+    "one-cell-not-first-environment": (None, True, lambda p: p["env"][0] != 0 and _k_differs(p)),
+    "one-cell-high-order": (None, True, lambda p: any(sum(r["sub"]) >= 2 and any(v != 0 for v in r["kf"]) for r in p["reacs"])),
+}
+
+
+def make_job(ctx, rng, kind=None, size1=False, allow_parallel=False, max_cells=8, directed=None):
+    if directed is not None:
+        kind, size1, pred = DIRECTED[directed]
+        best = None
+        for _ in range(400):
+            seed = rng.randrange(2 ** 62)
+            import random as _random
+            cand = L.gen_system(_random.Random(seed), kind=kind, max_cells=1 if size1 else max_cells, chem_p=0.1, min_env=2)
+            if pred(cand[1]):
+                best = seed
+                break
+        ctx.count("directed_" + directed + ("" if best is not None else "_not_found"))
+        if best is not None:
+            import random as _random
+            sub = _random.Random(best)
+            desc, phys, info = L.gen_system(sub, kind=kind, max_cells=1 if size1 else max_cells, chem_p=0.1, min_env=2)
+            return finish_job(rng, desc, phys, info)
+    return make_random_job(ctx, rng, kind, size1, allow_parallel, max_cells)
+
+
+def make_random_job(ctx, rng, kind=None, size1=False, allow_parallel=False, max_cells=8):
+    # one-cell systems (the only ones make_dxdtf accepts): mostly several environments, so that the cell is often not in the first
+    desc, phys, info = L.gen_system(rng, kind=kind, max_cells=1 if size1 else max_cells, chem_p=0.2, allow_parallel=allow_parallel,
+                                    min_env=(2 if (size1 and rng.random() < 0.7) else 1))
+    return finish_job(rng, desc, phys, info)
+
+
+def finish_job(rng, desc, phys, info):
     system = L.build_system(desc)
     us = L.rand_sys(rng)
     vals, _ = L.rand_state(rng, phys, us)
@@ -488,9 +539,11 @@ def run(ctx):
         if out_of_time(ctx):
             ctx.notes.append("stopped generating after %d systems (time budget)" % k)
             break
-        size1 = (k % 4 == 3)
+        size1 = (k % 3 == 2)
         kind = "grid" if k % 2 == 0 else "graph"
-        jb = make_job(ctx, rng, kind=kind, size1=size1, allow_parallel=False, max_cells=ctx.n(8, 16))
+        names = sorted(DIRECTED)
+        jb = make_job(ctx, rng, kind=kind, size1=size1, allow_parallel=False, max_cells=ctx.n(8, 16),
+                      directed=(names[k] if k < len(names) else (names[k % len(names)] if k % 10 == 0 else None)))
         jb["reuse_script"] = (k % 3 == 1)
         jobs.append(jb)
         if len(jobs) >= 22:
@@ -596,7 +649,8 @@ def replay(ctx, rec):
                 # a later call of the same closure (the recorded failing call)
                 xc = case["x_call"]
                 orc2 = L.oracle_rate(phys, [Fraction(v) * fq for v in xc])
-                f(0.0, [v * 1.5 + 1.0 for v in case["xU"]])
+                mx = max([abs(v) for v in case["xU"]] + [0.0])
+                f(0.0, [v * 1.5 + 0.25 * mx for v in case["xU"]])
                 res2 = [float(v) for v in f(0.0, list(xc))]
                 ok = all(close(res2[s], (Fraction(0) if chem[s] else orc2[s][0]) / fr, orc2[s][1] / fr, rel=TOL) for s in range(phys["ns"]))
                 out.update(later_call=res2, later_expected=[0.0 if chem[s] else float(orc2[s][0] / fr) for s in range(phys["ns"])])
